@@ -282,6 +282,19 @@ func genB(t *rapid.T) ([]ops.Op, []int) {
 		}
 		b = append(b, ops.OpDraw(ops.ClosePathEndPath))
 	}
+	// relies on CSEL = NSEL = 0 after Reset: a gradient written with
+	// incrementing writes only (matrix in NREG[0..5], offsets in NREG[6..8],
+	// colours in CREG[0..2], the gradient value in CREG[3])
+	b = append(b, ops.OpSetNReg(0, true, 1.0/64))
+	for i := 0; i < 5; i++ {
+		b = append(b, ops.OpSetNReg(0, true, 0))
+	}
+	b = append(b, ops.OpSetNReg(0, true, 0), ops.OpSetNReg(0, true, 0.5), ops.OpSetNReg(0, true, 1))
+	for i := 0; i < 3; i++ {
+		b = append(b, ops.OpSetCReg(0, true, ops.RGBAv(gen.RGBAOfClass(t, "dc", gen.RGBAOpaque))))
+	}
+	b = append(b, ops.OpSetCReg(0, false, ops.RGBAv(spec.EncodeGradientBits(spec.GradientBits{NStops: 3, CBase: 0, NBase: 6, Spread: 1}))))
+	b = append(b, ops.OpStartPath(0, -20, -20), ops.OpDraw(ops.AbsLineTo, 20, -20), ops.OpDraw(ops.AbsLineTo, 20, 20), ops.OpDraw(ops.ClosePathEndPath))
 	// relies on defaults: unwritten CREG, smooth first op
 	path(ops.OpDraw(ops.AbsSmoothQuadTo, moderate(t, "tx"), moderate(t, "ty")))
 	path(ops.OpDraw(ops.RelSmoothCubeTo, 1, 2, moderate(t, "sx"), moderate(t, "sy")))
